@@ -1094,8 +1094,16 @@ func vfC19RunCase(cl *vfC19Cluster, p *vfC19Params, keySalt int) *vfC19Run {
 		}
 		r.proxies = append(r.proxies, px)
 		c := client.NewClient("127.0.0.1", uint(port))
-		if err := c.Open(); err != nil {
-			r.harness = "cannot open client: " + err.Error()
+		opened := make(chan error, 1)
+		go func() { opened <- c.Open() }()
+		select {
+		case err := <-opened:
+			if err != nil {
+				r.harness = "cannot open client: " + err.Error()
+				return r
+			}
+		case <-time.After(30 * time.Second):
+			r.harness = fmt.Sprintf("watchdog: client.Open through %s did not return (INIT not answered)", r.via)
 			return r
 		}
 		r.clients = append(r.clients, c)
@@ -1198,7 +1206,24 @@ func TestVerif_C19(t *testing.T) {
 	if env.Thorough() {
 		shards = 14
 	}
+	only := map[int]bool{} // debugging aid: VERIF_C19_ONLY=case[,case...] runs just these cases
+	for _, f := range strings.Split(os.Getenv("VERIF_C19_ONLY"), ",") {
+		if v, err := strconv.Atoi(f); err == nil {
+			only[v] = true
+		}
+	}
 	part := vfRunSharded(t, env, "TestVerif_C19", n, shards, func(part *vfPart, i int) {
+		if len(only) > 0 && !only[i] {
+			return
+		}
+		if rep, _ := strconv.Atoi(os.Getenv("VERIF_C19_REPEAT")); rep > 1 && env.Replay == "" { // debugging aid
+			if cl, err := vfC19GetCluster(env); err == nil {
+				for k := 0; k < rep && part.unknownViol == 0; k++ {
+					vfC19RunAndJudge(env, part, cl, vfC19Gen(env.Seed, i), 5000+k, true)
+				}
+			}
+			return
+		}
 		vfC19Case(env, part, i)
 	})
 	if env.Shard >= 0 && vfC19Cl != nil && vfC19Cl.follower != nil {
